@@ -485,4 +485,59 @@ class Histories(Contract):
                         finally:
                             reg.clear()
                             reg.update(saved)
+        res += self._getters_follow_the_registry()
         return res
+
+    def _getters_follow_the_registry(self):
+        """Every public lookup helper of the three registration modules (`get_*` taking a format / type name) answers
+        from the registry *as it is now*: look up, re-point the short name with the module's `set_*_plugin`, look up again
+        (twice), re-point back - bounded history on the real registries (restored afterwards)."""
+        import inspect
+
+        from glotaran.plugin_system import base_registry, data_io_registration, megacomplex_registration, project_io_registration
+
+        holder = getattr(base_registry, [n for n in dir(base_registry) if n.endswith("PluginRegistry")][0])
+        out = []
+
+        class First:
+            def load_dataset(self, *a, **k): ...
+            def save_dataset(self, *a, **k): ...
+            def load_model(self, *a, **k): ...
+            def save_model(self, *a, **k): ...
+
+        class Second(First):
+            pass
+
+        def owner(x):
+            return getattr(x, "__self__", x)
+
+        for mod, regname, setter in ((data_io_registration, "data_io", "set_data_plugin"), (project_io_registration, "project_io", "set_project_plugin"), (megacomplex_registration, "megacomplex", "set_megacomplex_plugin")):
+            reg = getattr(holder, regname)
+            saved = dict(reg)
+            a, b = (First, Second) if regname == "megacomplex" else (First(), Second())
+            try:
+                reg["pyvc.First"], reg["pyvc.Second"], reg["zz"] = a, b, a
+                for gname, g in inspect.getmembers(mod, callable):
+                    if not gname.startswith("get_") or getattr(inspect.unwrap(g), "__module__", None) != mod.__name__ or inspect.isclass(g):
+                        continue
+                    params = list(inspect.signature(inspect.unwrap(g)).parameters)
+                    extra = {"get_project_io_method": ("load_model",)}.get(gname, ())
+                    if len(params) != 1 + len(extra):
+                        continue
+                    seen, bad = [], None
+                    try:
+                        for step, (pin, want) in enumerate(((None, a), ("pyvc.Second", b), (None, b), ("pyvc.First", a), ("pyvc.Second", b))):
+                            if pin:
+                                getattr(mod, setter)("zz", pin)
+                            got = owner(g("zz", *extra))
+                            seen.append(type(got).__name__ if not isinstance(got, type) else got.__name__)
+                            if got is not want:
+                                bad = bad or f"step {step}: {gname}('zz') answers with {seen[-1]} while the registry resolves 'zz' to {type(want).__name__ if not isinstance(want, type) else want.__name__}"
+                    except Exception as e:
+                        bad = f"{type(e).__name__}: {e}"
+                    out.append({"name": f"lookup_helper_follows_the_registry_after_set_plugin[{regname}.{gname}]", "ok": bad is None, "detail": bad or f"answers {seen}", "witness": {"history": "lookup, set->Second, lookup, lookup, set->First, lookup, set->Second, lookup", "why": bad} if bad else None, "function": f"{mod.__name__}:{gname}", "strength": "B"})
+                    reg["zz"] = a
+            finally:
+                reg.clear()
+                reg.update(saved)
+        return out
